@@ -9,6 +9,7 @@ import Stevia.Proofs.HashSetState
 import Stevia.Proofs.ArraySetState
 import Stevia.Props.C06
 import Stevia.Proofs.ExecInv
+import Stevia.Proofs.GenASetRefine
 
 namespace Stevia.C12
 open Stevia
@@ -83,5 +84,19 @@ theorem aset_zero_is_empty {κ : Type} [LinOrd κ] (key : α → κ) (P : Nat) (
     ({ len := 0, vals := List.replicate n d } : ASet α).Inv key P ∧
     ({ len := 0, vals := List.replicate n d } : ASet α).view = [] :=
   ⟨ASet.inv_zero key P d n, by simp [ASet.view]⟩
+
+/-- Tie through the translator: in the *translated* `array_set.rs` (`Stevia.GenA.*`, regenerated on every run; a
+    failing bounds check, an out-of-range raw copy or a panic is `none`) every operation returns normally in every
+    reachable state, for every slot count and every prefix width. -/
+theorem translated_array_set_total {κ : Type} [LinOrd κ] {key : α → κ} {P : Nat} {d : α} {s : ASet α}
+    (h : ASet.Reach key P d s) (x : α) :
+    (GenA.insert key P s x).isSome ∧ (GenA.take key P s x).isSome ∧ (GenA.get key P s x).isSome ∧
+    (GenA.contains key P s x).isSome := by
+  have hi := ASet.reach_inv h
+  obtain ⟨_, _, h1, _⟩ := GenA.insert_refines hi x
+  obtain ⟨_, _, h2, _⟩ := GenA.take_refines hi x
+  obtain ⟨h3, h4⟩ := GenA.get_refines hi x
+  rw [h1, h2, h3, h4]
+  exact ⟨rfl, rfl, rfl, rfl⟩
 
 end Stevia.C12
